@@ -145,7 +145,7 @@ func GenZFrame(r *rand.Rand, p []byte) *ZFrame {
 // GenZStreams: n zstd bodies, encoded by the model, intact and damaged.
 func GenZStreams(r *rand.Rand, n, nBig int) ([]FStream, error) {
 	kinds := []string{"valid", "valid", "multi", "multi", "skip", "skip-only", "empty", "trunc", "trunc", "trunc-multi", "stray", "garbage",
-		"flip-sum", "flip-sum", "flip-nosum", "flip-hdr", "fcs-wrong", "reserved-bit", "dict", "big-window", "block-gt-window",
+		"flip-sum", "flip-sum", "flip-nosum", "flip-hdr", "fcs-wrong", "reserved-bit", "dict", "big-window", "block-gt-window", "block-gt-128k",
 		"boundary-srcerr", "inside-srcerr"}
 	type zspec struct {
 		kind    string
@@ -220,6 +220,14 @@ func GenZStreams(r *rand.Rand, n, nBig int) ([]FStream, error) {
 					f.FCS = le(uint64(len(p)), 4)
 				}
 				f.Blocks, f.Last = [][]byte{p[:100], p[100 : len(p)-50]}, p[len(p)-50:]
+			case "block-gt-128k": // Block_Maximum_Size: 128 KiB exactly is fine, one byte more is not
+				p = make([]byte, 270000+r.Intn(1000))
+				for j := range p {
+					p[j] = byte(j * 31)
+				}
+				f = &ZFrame{FHD: 2<<6 | 32, FCS: le(uint64(len(p)), 4)}
+				big := 128<<10 + 1 + r.Intn(3)
+				f.Blocks, f.Last = [][]byte{p[:128<<10], p[128<<10 : 128<<10+big]}, p[128<<10+big:]
 			}
 			sp.frames = append(sp.frames, f)
 			if sp.kind == "skip" && r.Intn(2) == 0 {
@@ -291,7 +299,7 @@ func GenZStreams(r *rand.Rand, n, nBig int) ([]FStream, error) {
 			st.Wire = flipAt(r, whole, lastFrame.HeaderLen(), len(whole))
 		case "flip-hdr":
 			st.Wire = flipAt(r, whole, 0, lastFrame.HeaderLen())
-		case "fcs-wrong", "reserved-bit", "big-window", "block-gt-window":
+		case "fcs-wrong", "reserved-bit", "big-window", "block-gt-window", "block-gt-128k":
 			st.Wire, st.MustErr = whole, true
 		case "dict": // make the dictionary id non-zero
 			f := append([]byte(nil), whole...)
